@@ -52,17 +52,18 @@ Qed.
 (* ------------------------------------------------------------------ *)
 Definition legal (s : str) : bool := forallb xml_char s.
 Definition legal_opt (o : option str) : bool := match o with Some s => legal s | None => true end.
-Definition legal_value (v : aval) : bool := match v with AText s => legal s | ANameID f s => legal f && legal s end.
+Definition legal_value (v : aval) : bool := match v with AText s => legal s | ANameID f s => legal f && legal s | AOther s => legal s end.
 Definition legal_attribute (a : attribute) : bool :=
   legal (at_name a) && legal_opt (at_format a) && legal_opt (at_friendly a) && forallb legal_value (at_values a).
 
 Lemma wf_value v : legal_value v = true -> wf_xml (value_xml v) = true.
 Proof.
-  destruct v as [s|f s]; cbn [legal_value value_xml]; intros H.
+  destruct v as [s|f s|s]; cbn [legal_value value_xml]; intros H.
   - cbn [wf_xml forallb fst snd nodup_keys has_key existsb]. unfold legal in H. rewrite H.
     vm_compute. reflexivity.
   - apply andb_true_iff in H as [Hf Hs]. unfold legal in *.
     cbn [wf_xml forallb fst snd nodup_keys has_key existsb]. rewrite Hf, Hs. vm_compute. reflexivity.
+  - unfold legal in H. cbn [wf_xml forallb fst snd nodup_keys has_key existsb]. rewrite H. vm_compute. reflexivity.
 Qed.
 
 Lemma forallb_map {X Y} (f : Y -> bool) (g : X -> Y) l : forallb f (map g l) = forallb (fun x => f (g x)) l.
@@ -92,7 +93,7 @@ Qed.
 
 (* harvesting what was rendered gives the attributes back *)
 Lemma value_of_value_xml v : value_of_xml (value_xml v) = v.
-Proof. destruct v as [s|f s]; vm_compute; try reflexivity. Qed.
+Proof. destruct v as [s|f s|s]; vm_compute; try reflexivity. Qed.
 
 Lemma values_of_xml l : map value_of_xml (filter (fun k => str_eqb (x_tag k) (T "AttributeValue")) (map value_xml l)) = l.
 Proof.
@@ -117,7 +118,7 @@ Qed.
 
 (* what the XML end-of-line rule does to the values (nothing when they contain no CR) *)
 Definition norm_value (v : aval) : aval :=
-  match v with AText s => AText (norm_eol s) | ANameID f s => ANameID f (norm_eol s) end.
+  match v with AText s => AText (norm_eol s) | ANameID f s => ANameID f (norm_eol s) | AOther s => AOther (norm_eol s) end.
 Definition norm_attribute (a : attribute) : attribute :=
   {| at_name := at_name a; at_format := at_format a; at_friendly := at_friendly a; at_values := map norm_value (at_values a) |}.
 
@@ -125,7 +126,7 @@ Lemma norm_statement l : norm_xml (attr_statement_xml l) = attr_statement_xml (m
 Proof.
   unfold attr_statement_xml. cbn [norm_xml norm_eol]. f_equal. rewrite !map_map. apply map_ext. intros a.
   unfold attribute_xml, norm_attribute. cbn [norm_xml norm_eol at_name at_format at_friendly at_values]. f_equal.
-  rewrite !map_map. apply map_ext. intros [s|f s]; reflexivity.
+  rewrite !map_map. apply map_ext. intros [s|f s|s]; reflexivity.
 Qed.
 
 (* IdP attributes -> XML text -> reader -> attributes *)
@@ -137,12 +138,12 @@ Qed.
 
 Definition no_cr (s : str) : bool := forallb (fun c => negb (c =? 13)) s.
 Definition no_cr_attribute (a : attribute) : bool :=
-  forallb (fun v => match v with AText s => no_cr s | ANameID _ s => no_cr s end) (at_values a).
+  forallb (fun v => match v with AText s => no_cr s | ANameID _ s => no_cr s | AOther s => no_cr s end) (at_values a).
 Lemma norm_attribute_id a : no_cr_attribute a = true -> norm_attribute a = a.
 Proof.
   destruct a as [n f g vs]. unfold no_cr_attribute, norm_attribute. cbn [at_name at_format at_friendly at_values]. intros H. f_equal.
   induction vs as [|v vs IH]; [reflexivity|]. cbn [forallb] in H. apply andb_true_iff in H as [Hv Hvs]. cbn [map]. rewrite (IH Hvs). f_equal.
-  destruct v as [s|f' s]; cbn [norm_value]; unfold no_cr in Hv; now rewrite (norm_eol_id _ Hv).
+  destruct v as [s|f' s|s]; cbn [norm_value]; unfold no_cr in Hv; now rewrite (norm_eol_id _ Hv).
 Qed.
 Theorem attributes_through_text_exact l : legal_attributes l = true -> forallb no_cr_attribute l = true ->
   option_map attrs_of_statement_xml (xml_parse (serialise (attr_statement_xml l))) = Some l.
@@ -153,8 +154,8 @@ Proof.
 Qed.
 
 (* the structure of the statement depends on the shape of the identity only *)
-Definition value_shape (v : aval) : bool := match v with AText _ => false | ANameID _ _ => true end.
-Definition attribute_shape (a : attribute) : bool * bool * list bool :=
+Definition value_shape (v : aval) : nat := match v with AText _ => 0%nat | ANameID _ _ => 1%nat | AOther _ => 2%nat end.
+Definition attribute_shape (a : attribute) : bool * bool * list nat :=
   (match at_format a with Some _ => true | None => false end, match at_friendly a with Some _ => true | None => false end,
    map value_shape (at_values a)).
 
@@ -193,60 +194,89 @@ Definition plain_values (vals : list str) : list rval := map (fun v => RStr (str
 (* the name an identity key travels under, when the IdP's converter knows the key *)
 Definition wire_name (c : conv) (key : str) : option str :=
   match dict_get (lower key) (c_to c) with Some (x :: n) => Some (x :: n) | _ => None end.
-(* ... and the local name under which the SP's converter for that format reports it *)
+(* the local name the first of the converters cs that knows the (lower-cased, trimmed) wire name n gives it *)
+Fixpoint first_local (cs : list conv) (n : str) : option str :=
+  match cs with
+  | [] => None
+  | c :: r => match dict_get n (c_fro c) with Some l => Some l | None => first_local r n end
+  end.
+(* ... and the local name under which the SP reports it: the SP's converters for that format, in order *)
 Definition sp_name (c : conv) (sp_acs : list conv) (key : str) : option str :=
   match wire_name c key with
-  | Some name => match acsd_get (c_nf c) sp_acs with
-                 | Some c' => dict_get (lower (strip name)) (c_fro c')
-                 | None => None
-                 end
+  | Some name => first_local (convs_for (c_nf c) sp_acs) (lower (strip name))
   | None => None
   end.
-(* eduPersonTargetedID travels as NameID elements: an EMPTY value is read back as a
-   dictionary, not as '' (known finding eptid-empty-value) *)
-Definition eptid_ok (c : conv) (sp_acs : list conv) (key : str) (vals : list str) : bool :=
+(* eduPersonTargetedID travels as NameID elements, which the reader unwraps under exactly that local
+   name: the SP's table must report the OID under the name eduPersonTargetedID (spelled so) *)
+Definition eptid_named (c : conv) (sp_acs : list conv) (key : str) : bool :=
   match wire_name c key, sp_name c sp_acs key with
-  | Some name, Some local =>
-      if str_eqb name EPTID_OID then str_eqb local EPTID && forallb (fun v => negb (is_nil v)) vals else true
+  | Some name, Some local => if str_eqb name EPTID_OID then str_eqb local EPTID else true
   | _, _ => true
   end.
 
+Lemma first_known_local cs a :
+  first_known cs a =
+  option_map (fun l => (l, map (read_value l) (at_values a))) (first_local cs (lower (strip (at_name a)))).
+Proof.
+  induction cs as [|c r IH]; [reflexivity|]. cbn [first_known first_local]. unfold ava_from.
+  destruct (dict_get (lower (strip (at_name a))) (c_fro c)); [reflexivity|exact IH].
+Qed.
+
+Lemma first_local_nonempty cs n l : first_local cs n = Some l -> cs <> [].
+Proof. destruct cs; [discriminate|discriminate]. Qed.
+
+(* read_attr in terms of the converters for the format *)
+Lemma read_attr_known sp_acs allow a l :
+  first_local (convs_for (parsed_format a) sp_acs) (lower (strip (at_name a))) = Some l ->
+  read_attr sp_acs allow a = Some (l, map (read_value l) (at_values a)).
+Proof.
+  intros H. unfold read_attr. pose proof (first_known_local (convs_for (parsed_format a) sp_acs) a) as K.
+  rewrite H in K. cbn [option_map] in K.
+  destruct (convs_for (parsed_format a) sp_acs) as [|c0 r]; [discriminate|]. now rewrite K.
+Qed.
+
+Lemma read_values_text l vals : map (read_value l) (map AText vals) = map (fun v => RStr (strip v)) vals.
+Proof. now rewrite map_map. Qed.
+Lemma read_values_nameid fmt vals : map (read_value EPTID) (map (ANameID fmt) vals) = map (fun v => RStr (strip v)) vals.
+Proof.
+  rewrite map_map. apply map_ext. intros v. cbn [read_value].
+  assert (str_eqb EPTID EPTID = true) as -> by (vm_compute; reflexivity). reflexivity.
+Qed.
+
 Lemma deliver_mapped c sp_acs allow key vals local :
-  sp_name c sp_acs key = Some local -> eptid_ok c sp_acs key vals = true ->
+  sp_name c sp_acs key = Some local -> eptid_named c sp_acs key = true ->
   read_attr sp_acs allow (to_attr c (key, vals)) = Some (local, plain_values vals).
 Proof.
-  unfold eptid_ok, sp_name, wire_name, to_attr. cbn [fst snd].
+  unfold eptid_named, sp_name, wire_name, to_attr. cbn [fst snd].
   destruct (dict_get (lower key) (c_to c)) as [[|x n]|] eqn:Ew; try discriminate.
-  destruct (acsd_get (c_nf c) sp_acs) as [c'|] eqn:Ea; [|discriminate].
   intros Hl He. rewrite Hl in He.
-  unfold read_attr, parsed_format. cbn [at_format]. rewrite Ea.
-  unfold ava_from. cbn [at_name at_values]. rewrite Hl. f_equal. f_equal.
+  rewrite (read_attr_known sp_acs allow _ local); [|exact Hl].
+  cbn [at_values]. f_equal. f_equal. unfold plain_values.
   destruct (str_eqb (x :: n) EPTID_OID).
-  - apply andb_true_iff in He as [Hloc Hne]. unfold plain_values. rewrite map_map.
-    induction vals as [|v vs IH]; [reflexivity|]. cbn [forallb] in Hne. apply andb_true_iff in Hne as [H1 H2].
-    cbn [map]. rewrite (IH H2). f_equal. cbn [read_value]. destruct v as [|v0 v']; [discriminate|]. now rewrite Hloc.
-  - unfold plain_values. rewrite map_map. reflexivity.
+  - apply str_eqb_eq in He. subst local. apply read_values_nameid.
+  - apply read_values_text.
 Qed.
 
 Lemma deliver_unmapped c sp_acs allow key vals : wire_name c key = None ->
   read_attr sp_acs allow (to_attr c (key, vals)) =
-  match acsd_get NAME_FORMAT_URI sp_acs with
-  | Some c' => match dict_get (lower (strip key)) (c_fro c') with
-               | Some local => Some (local, plain_values vals)
-               | None => if allow then Some (strip key, plain_values vals) else None
-               end
-  | None => if str_eqb NAME_FORMAT_URI NAME_FORMAT_UNSPECIFIED || allow then Some (strip key, plain_values vals) else None
+  match convs_for NAME_FORMAT_URI sp_acs with
+  | [] => if str_eqb NAME_FORMAT_URI NAME_FORMAT_UNSPECIFIED || allow then Some (strip key, plain_values vals) else None
+  | cs => match first_local cs (lower (strip key)) with
+          | Some local => Some (local, plain_values vals)
+          | None => if allow then Some (strip key, plain_values vals) else None
+          end
   end.
 Proof.
   unfold wire_name, to_attr. cbn [fst snd]. intros Hw.
-  assert (forall l, map (fun v => match v with AText s => RStr (strip s) | ANameID _ _ => RStr [] end) (map AText l) = plain_values l) as L1
+  assert (forall l, map (fun v => match v with AText s => RStr (strip s) | ANameID _ _ | AOther _ => RStr [] end) (map AText l) = plain_values l) as L1
       by (intros l; unfold plain_values; now rewrite map_map).
   assert (forall loc l, map (read_value loc) (map AText l) = plain_values l) as L2
       by (intros loc l; unfold plain_values; now rewrite map_map).
   destruct (dict_get (lower key) (c_to c)) as [[|x n]|]; try discriminate;
-    unfold read_attr, parsed_format, ava_from, lcd_ava_from; cbn [at_format at_name at_values];
-    (destruct (acsd_get NAME_FORMAT_URI sp_acs) as [c'|]; [destruct (dict_get (lower (strip key)) (c_fro c'))|]);
-    rewrite ?L1, ?L2; reflexivity.
+    unfold read_attr, parsed_format, lcd_ava_from; cbn [at_format at_name at_values];
+    (destruct (convs_for NAME_FORMAT_URI sp_acs) as [|c0 r]; [rewrite ?L1; reflexivity|]);
+    rewrite first_known_local; cbn [at_name at_values];
+    (destruct (first_local (c0 :: r) (lower (strip key))); cbn [option_map]; rewrite ?L1, ?L2; reflexivity).
 Qed.
 
 (* the accumulated dictionary *)
@@ -260,7 +290,7 @@ Qed.
 
 Lemma list_to_local_from_fresh c sp_acs allow : forall ident locals d,
   map (fun kv => sp_name c sp_acs (fst kv)) ident = map Some locals ->
-  Forall (fun kv => eptid_ok c sp_acs (fst kv) (snd kv) = true) ident ->
+  Forall (fun kv => eptid_named c sp_acs (fst kv) = true) ident ->
   NoDup locals -> (forall kv, In kv d -> ~ In (fst kv) locals) ->
   list_to_local_from sp_acs allow (map (to_attr c) ident) d = d ++ combine locals (map (fun kv => plain_values (snd kv)) ident).
 Proof.
@@ -282,7 +312,7 @@ Qed.
    the asserted attributes, under the documented names, values trimmed *)
 Theorem attributes_exact c sp_acs allow ident locals :
   map (fun kv => sp_name c sp_acs (fst kv)) ident = map Some locals ->
-  Forall (fun kv => eptid_ok c sp_acs (fst kv) (snd kv) = true) ident ->
+  Forall (fun kv => eptid_named c sp_acs (fst kv) = true) ident ->
   NoDup locals ->
   list_to_local sp_acs allow (map (to_attr c) ident) = combine locals (map (fun kv => plain_values (snd kv)) ident).
 Proof.
@@ -331,6 +361,56 @@ Proof.
     unfold alias_rows. apply in_flat_map. exists (lower key). split; [exact Hin|]. rewrite E.
     destruct (str_eqb_spec (lower l) (lower key)); [contradiction|now left].
   - exfalso. apply Hnl. unfold lost_rows. apply filter_In. split; [exact Hin|]. now rewrite E.
+Qed.
+
+(* eptid_rows_ok decides eptid_named for every spelling of every key *)
+Lemma dict_get_in k l v : dict_get k l = Some v -> In k (map fst l).
+Proof.
+  induction l as [|[k' v'] l IH]; [discriminate|]. cbn [dict_get map fst].
+  destruct (dict_get k l) as [w|]; [intros E; right; exact (IH E)|].
+  destruct (str_eqb_spec k k') as [->|_]; [now left|discriminate].
+Qed.
+Lemma wire_name_lower c key : wire_name c (lower key) = wire_name c key.
+Proof. unfold wire_name. now rewrite lower_idem. Qed.
+Lemma wire_name_in c key n : wire_name c key = Some n -> In (lower key) (table_keys c).
+Proof.
+  unfold wire_name, table_keys. destruct (dict_get (lower key) (c_to c)) as [v|] eqn:E; [|discriminate].
+  intros _. exact (dict_get_in _ _ _ E).
+Qed.
+Theorem eptid_rows_named c sp_acs : eptid_rows_ok c sp_acs = true -> forall key, eptid_named c sp_acs key = true.
+Proof.
+  intros H key. unfold eptid_named. rewrite <- (wire_name_lower c key), <- (sp_name_lower c sp_acs key).
+  destruct (wire_name c (lower key)) as [n|] eqn:Ew; [|reflexivity].
+  unfold eptid_rows_ok in H. rewrite forallb_forall in H.
+  assert (In (lower key) (table_keys c)) as Hin by (rewrite <- lower_idem; exact (wire_name_in c (lower key) n Ew)).
+  specialize (H _ Hin). now rewrite Ew in H.
+Qed.
+
+(* a table without lost rows: an identity over its keys (any spelling) is reported name by name,
+   each under its own name (up to letter case) or under the alias listed for it *)
+Definition reported_as (c : conv) (sp_acs : list conv) (kv : str * list str) (l : str) : Prop :=
+  lower l = lower (fst kv) \/ In (lower (fst kv), l) (alias_rows c sp_acs).
+Theorem table_identity_reported c sp_acs : lost_rows c sp_acs = [] -> eptid_rows_ok c sp_acs = true ->
+  forall ident : identity, Forall (fun kv => In (lower (fst kv)) (table_keys c)) ident ->
+  exists locals, map (fun kv => sp_name c sp_acs (fst kv)) ident = map Some locals /\
+                 Forall2 (reported_as c sp_acs) ident locals /\
+                 Forall (fun kv => eptid_named c sp_acs (fst kv) = true) ident.
+Proof.
+  intros Hl He ident. induction ident as [|kv ident IH]; intros H.
+  - exists []. repeat split; constructor.
+  - inversion H as [|? ? H1 H2]; subst. destruct (IH H2) as (locals & E & R & N).
+    destruct (table_key_reported c sp_acs (fst kv) H1) as (l & El & Rl); [rewrite Hl; intros []|].
+    exists (l :: locals). cbn [map]. rewrite El, E. split; [reflexivity|]. split.
+    + constructor; [exact Rl|exact R].
+    + constructor; [apply eptid_rows_named, He|exact N].
+Qed.
+
+(* the first converter of a format is one of the converters, and the first of its own format *)
+Lemma first_conv_in acs nf c : first_conv acs nf = Some c -> In c acs /\ first_conv acs (c_nf c) = Some c.
+Proof.
+  intros H. pose proof (first_conv_nf acs nf c H) as E. rewrite E. split; [|exact H].
+  clear E. induction acs as [|c0 r IH]; [discriminate|]. cbn [first_conv] in H.
+  destruct (str_eqb (c_nf c0) nf); [injection H as <-; now left|right; now apply IH].
 Qed.
 
 (* ------------------------------------------------------------------ *)
